@@ -21,15 +21,14 @@ Proof. exact split_join_free. Qed.
 Print Assumptions C07_split_join.
 
 (* The full statement "decode (encode m) = Some m for every record" is FALSE of the code
-   (finding F6): repeated values are dropped, brackets are trimmed, and "]," or "|" inside
+   (finding F6-delimiters): brackets are trimmed, and "]," or "|" inside
    a value make the entry undecodable. *)
 Theorem C07_refuted :
-  decode_meta (encode_meta (m0 [(bytes "Set-Cookie", [bytes "a=1"; bytes "b=2"])])) = Some (m0 [(bytes "Set-Cookie", [bytes "a=1"])]) /\
   decode_meta (encode_meta (m0 [(bytes "X-A", [bytes "[two]"])])) = Some (m0 [(bytes "X-A", [bytes "two"])]) /\
   decode_meta (encode_meta (m0 [(bytes "X-A", [bytes "a],b"])])) = None /\
   decode_meta (encode_meta (m0 [(bytes "X-A", [bytes "a|b"])])) = None.
 Proof.
-  split; [exact C07_refuted_two_values|]. split; [exact C07_refuted_brackets|].
+  split; [exact C07_refuted_brackets|].
   split; [exact C07_refuted_close_comma | exact C07_refuted_bar].
 Qed.
 Print Assumptions C07_refuted.
